@@ -42,6 +42,10 @@ def run(ctx):
     for g in (["i11", "i23", "i263", "i32771", "ed37", "ed109"] if thorough else ["i23", "i32771", "ed37"]):
         uni.paramset("P" + g, grp=g)
         sets.append(("P" + g, g))
+    for name, (qb, pb) in (("m80", (33, 80)), ("m256", (160, 256))):
+        uni.int_group(name, *medium_group(qb, pb, 2))
+        uni.paramset("P" + name, grp=name)
+        sets.append(("P" + name, name))
     n = 0
     for ps, g in sets:
         q = uni.group(g).order()
